@@ -8,8 +8,8 @@
      reparse_equal : forall t m, parse t = Some m -> G t -> parse (ser m) = Some m /\
                                  option_map ser (parse (ser m)) = Some (ser m)
    for sheets, rules, selectors, declaration blocks, media lists and values.  Proved below:
-   the string component at full strength (all backslash-free values, all following texts, both
-   tokenizer modes), its refutation for values with a backslash (the pinned code violates it, known
+   the string component for every representable value - backslashes included - (all following texts, both
+   tokenizer modes), its refutation for the one excluded quote case that the pinned test suite fixes (known
    finding C03-escaped-dquote-in-string), the fixpoint half as an abstract corollary, and the
    composition for item lists under the named hypotheses out_tokens_preserved (C05),
    value_grammar_faithful (prodparser, unmodelled) and the per-lexeme stability of non-string tokens
@@ -18,8 +18,9 @@ From CssV Require Import Base Regex Tokenizer Quote Gen.Quote QuoteFacts Roundtr
 
 (* strings re-parse to an equal object: for every REPRESENTABLE string value (QuoteFacts.rep_ok: every value
    except (a) an escape-introducing backslash directly before a double quote - helper.string keeps the pinned
-   output for it, see string_roundtrip_dquote_refuted - and (b) a backslash before a newline character, which no
-   CSS text can denote because Tokenizer.cleanstring removes it after the escapes are resolved), whatever text
+   output for it, see string_roundtrip_dquote_refuted - and (b) a backslash before a newline character, which
+   helper.string writes as backslash + newline escape and Tokenizer.cleanstring then deletes: open finding
+   C03-backslash-before-newline), whatever text
    follows the serialised string, in both tokenizer modes and with comments kept or dropped, the first token of
    helper.string(v) ++ follow  is a STRING token whose raw text is exactly helper.string(v), at 1:1, and
    Base._stringtokenvalue of it is v again.  Covers quotes, \n \r \f, every non-ASCII code point and backslashes:
